@@ -172,6 +172,7 @@ def own_path(meter, name, form, n_free):
             d = AD.AutoDecoder()
             d._AutoDecoder__previous_success = prev
             w = {"data": SBytes(o), "prev": prev, "via": "payload", "own": own, "meter": meter, "form": form}
+            ctx.intend(w)
             if ctx.witness is None:
                 ctx.witness = w
             try:
@@ -203,6 +204,7 @@ def p1_own_path():
             d = AD.AutoDecoder()
             d._AutoDecoder__previous_success = prev
             w = {"data": SBytes(block), "prev": prev, "via": "payload", "own": "P1"}
+            ctx.intend(w)
             if ctx.witness is None:
                 ctx.witness = w
             res = d.decode_message_payload(SBytes(block))
